@@ -1,8 +1,8 @@
 #!/verif/.venv/bin/python
 # Replay of a solver counterexample against the unmodified code (no shims).
-# property=C07 kernel=seq label=k2:pulse_phase_is_programmed_plus_ref
+# property=C07 kernel=qubitref label=k1:last_used_monotone
 import sys
-sys.path[:0] = ["/repo/pulser-core", "/repo/pulser-simulation", "/verif"]
+sys.path[:0] = ['/repo' + "/pulser-core", '/repo' + "/pulser-simulation", "/verif"]
 from symx.replay import replay
-sys.exit(replay(check='checks.c07', kernel='seq', shape={'device': 'virt', 'channels': [('a', 'ram_glob', None), ('b', 'ram_loc', 'q0'), ('r', 'ryd_glob', None)], 'program': [['shift', [], 'ground-rydberg'], ['add', 'r', 'min-delay', 17, True], ['add', 'r', 'min-delay', 19, False], ['shift', ['q0'], 'digital'], ['add', 'b', 'min-delay', 15, False]]},
-                assignment={'phi0': 358, 'ph1': 0, 'post1': 1, 'ph2': 1, 'buf#1.start': 0, 'buf#1.end': 0, 'buf#2.start': 0, 'buf#2.end': 1, 'phi3': 1, 'ph4': 0}, label='k2:pulse_phase_is_programmed_plus_ref'))
+sys.exit(replay(check='checks.c07', kernel='qubitref', shape={'ops': ['inc', 'use', 'use']},
+                assignment={'phi0': 0, 't1': 1, 't2': 0}, label='k1:last_used_monotone'))
